@@ -6,6 +6,7 @@
 package c18
 
 import (
+	"sync"
 	"bufio"
 	"bytes"
 	"crypto/sha256"
@@ -86,6 +87,19 @@ func scenarios(tier string, seed int64) []scenario {
 			sc.Runs = append(sc.Runs, run{Services: svcs, Stop: r.PickS([]string{"term", "kill"})})
 		}
 		out = append(out, sc)
+	}
+	// a service of the ssh family on its own in the run that creates the data directory (its first clients arrive
+	// together), joined by its sibling later
+	nf := 3
+	if tier == "thorough" {
+		nf = 20
+	}
+	for i := 0; i < nf; i++ {
+		first := []string{"ssh-simulator", "ssh-auth"}[i%2]
+		out = append(out, scenario{Kind: "history", Runs: []run{
+			{Services: []string{"telnet", first}, Stop: []string{"kill", "term"}[i%2]},
+			{Services: []string{"telnet", "ssh-simulator", "ssh-auth"}, Stop: "term"},
+			{Services: []string{"telnet", first}, Stop: "kill"}}})
 	}
 	// agent listener histories
 	for i := 0; i < 2; i++ {
@@ -274,6 +288,28 @@ func waitPort(port int, p *proc, max time.Duration) bool {
 			}
 		}
 		time.Sleep(20 * time.Millisecond)
+	}
+	return false
+}
+
+// waitListening waits until the kernel shows a listening socket on the loopback port, without connecting to
+// it (the first connections a service sees are part of what is observed).
+func waitListening(port int, p *proc, max time.Duration) bool {
+	want := fmt.Sprintf("0100007F:%04X", port)
+	deadline := time.Now().Add(max)
+	for time.Now().Before(deadline) {
+		if p.exited() {
+			return false
+		}
+		if b, err := os.ReadFile("/proc/net/tcp"); err == nil {
+			for _, ln := range strings.Split(string(b), "\n") {
+				f := strings.Fields(ln)
+				if len(f) > 3 && f[1] == want && f[3] == "0A" {
+					return true
+				}
+			}
+		}
+		time.Sleep(10 * time.Millisecond)
 	}
 	return false
 }
@@ -623,8 +659,28 @@ func runScenario(k int, sc scenario) scnObs {
 				}
 				// the listener opens its ports one after the other: wait for this one too, and read again
 				// if the first read raced the start-up
-				waitPort(portOf[s], pr, 10*time.Second)
+				waitListening(portOf[s], pr, 10*time.Second)
 				v := ""
+				if s == "ssh-simulator" || s == "ssh-auth" {
+					// the first clients of a run arrive together: they must all be shown the same key
+					var wg sync.WaitGroup
+					ks := make([]string, 3)
+					for ci := range ks {
+						wg.Add(1)
+						go func(ci int) { defer wg.Done(); ks[ci] = rd(portOf[s]) }(ci)
+					}
+					wg.Wait()
+					seen := map[string]bool{}
+					var uniq []string
+					for _, k := range ks {
+						if k != "" && !seen[k] {
+							seen[k] = true
+							uniq = append(uniq, k)
+						}
+					}
+					sort.Strings(uniq)
+					v = strings.Join(uniq, "|")
+				}
 				for try := 0; try < 5 && v == ""; try++ {
 					if try > 0 {
 						time.Sleep(time.Duration(300<<uint(try-1)) * time.Millisecond)
@@ -788,6 +844,10 @@ func (prop) Judge(b core.Batch, recs []core.Rec, exits []core.Exit) []core.Resul
 				}
 			}
 			for key, v := range ro.Identity {
+				if strings.Contains(v, "|") {
+					fail("identity-differs-between-clients-of-one-run|"+key, fmt.Sprintf("run %d: clients that connected at the same time were shown different values of %s: %s", i, key, v))
+					continue
+				}
 				if v == "" {
 					fail("identity-unreadable|"+key, fmt.Sprintf("run %d: %s could not be read from the running service %s", i, key, clip(ro.Tail)))
 					continue
